@@ -558,6 +558,9 @@ func runC14(c *Ctx) {
 				return true
 			})
 		}
+		if !ok {
+			ok = stopSuffixZeroBased(c, f)
+		}
 		c.Check("C14-R7", f.Key()+" tries every prefix of every stop", c.Pos(f.Decl), ok, "ContainsStopSuffix must loop i = 1 … len(stop) testing strings.HasSuffix(sequence, stop[:i])")
 		g := c.G(f)
 		for _, ex := range g.Returns() {
@@ -585,7 +588,7 @@ func runC14(c *Ctx) {
 			iv := core.ResultVar(info, h.Top, h.Node.(*ast.CallExpr), 0)
 			ast.Inspect(f.Body, func(n ast.Node) bool {
 				if as, isAs := n.(*ast.AssignStmt); isAs && len(as.Rhs) == 1 {
-					if se, isS := ast.Unparen(as.Rhs[0]).(*ast.SliceExpr); isS && se.Low == nil && iv != nil && se.High != nil && core.UsesObj(info, se.High, iv) && core.ExprString(se.X) == core.ExprString(as.Lhs[0]) {
+					if se, isS := ast.Unparen(as.Rhs[0]).(*ast.SliceExpr); isS && se.Low == nil && iv != nil && se.High != nil && isIdentOf(info, se.High, iv) && (core.ExprString(se.X) == core.ExprString(as.Lhs[0]) || core.ExprString(se.X) == core.ExprString(h.Node.(*ast.CallExpr).Args[0])) {
 						ok = true
 					}
 				}
@@ -661,22 +664,22 @@ func isLimitTest(e ast.Expr) bool {
 }
 
 // findStopEarliest: FindStop(sequence, stops) returns the stop with the smallest strings.Index in sequence.
+// Accepted shapes: a loop over all stops (range, or indexed up to len) that is never left early, locates
+// the current stop with strings.Index(sequence, stop), and records (stop, index) into two locals at a
+// point that is reached only with index >= 0 and only if nothing was recorded yet or the index is smaller
+// than the recorded one — written as a guard around the recording (`i >= 0 && (!found || i < at)`) or as
+// skips in front of it (`if i < 0 { continue }; if found && at <= i { continue }`); every return hands
+// back the recorded stop.
 func findStopEarliest(c *Ctx, f *core.Func) (bool, string) {
 	info := f.Info()
 	g := c.G(f)
 	seq, stops := paramAt(f, 0), paramAt(f, 1)
-	for _, rl := range rangeLoops(f) {
-		if rl.Over != stops || rl.Stmt.Value == nil {
+	for _, lp := range listLoops(info, f.Body) {
+		if lp.List != stops {
 			continue
 		}
-		vid, isV := rl.Stmt.Value.(*ast.Ident)
-		if !isV {
-			continue
-		}
-		v := info.Defs[vid]
-		// every stop is examined
 		early := ""
-		ast.Inspect(rl.Stmt.Body, func(n ast.Node) bool {
+		ast.Inspect(lp.Body, func(n ast.Node) bool {
 			switch x := n.(type) {
 			case *ast.FuncLit:
 				return false
@@ -692,70 +695,86 @@ func findStopEarliest(c *Ctx, f *core.Func) (bool, string) {
 		if early != "" {
 			return false, early + ": a stop later in the list that occurs earlier in the text is not seen"
 		}
-		// located with strings.Index(sequence, stop)
 		for _, h := range g.FindCalls("strings.Index") {
 			call := h.Node.(*ast.CallExpr)
-			if !within(rl.Stmt.Body, call) || !isIdentOf(info, call.Args[0], seq) || !isIdentOf(info, call.Args[1], v) {
+			if !within(lp.Body, call) || !isIdentOf(info, call.Args[0], seq) || !lp.IsElem(call.Args[1]) {
 				continue
 			}
 			iv := core.ResultVar(info, h.Top, call, 0)
 			if iv == nil {
 				continue
 			}
-			// a block that records (stop, index) under index >= 0 and index < best
 			for _, as := range g.Find(func(n ast.Node) bool {
 				a, isA := n.(*ast.AssignStmt)
-				return isA && within(rl.Stmt.Body, a) && len(a.Lhs) == len(a.Rhs)
+				return isA && within(lp.Body, a) && len(a.Lhs) == len(a.Rhs)
 			}) {
 				a := as.Node.(*ast.AssignStmt)
 				var best, chosen types.Object
 				for i := range a.Lhs {
-					if isIdentOf(info, a.Rhs[i], iv) {
-						if id, isId := a.Lhs[i].(*ast.Ident); isId {
-							best = info.ObjectOf(id)
-						}
+					id, isId := a.Lhs[i].(*ast.Ident)
+					if !isId {
+						continue
 					}
-					if isIdentOf(info, a.Rhs[i], v) {
-						if id, isId := a.Lhs[i].(*ast.Ident); isId {
-							chosen = info.ObjectOf(id)
-						}
+					if isIdentOf(info, a.Rhs[i], iv) {
+						best = info.ObjectOf(id)
+					}
+					if lp.IsElem(a.Rhs[i]) {
+						chosen = info.ObjectOf(id)
 					}
 				}
 				if best == nil || chosen == nil {
 					continue
 				}
-				// the guard: mentions index >= 0 (true) and compares the index with the best so far
-				nonNeg, smaller := false, false
-				var cond ast.Expr
-				ast.Inspect(rl.Stmt.Body, func(n ast.Node) bool {
-					if ifs, isIf := n.(*ast.IfStmt); isIf && within(ifs.Body, a) {
-						cond = ifs.Cond
-					}
-					return true
-				})
-				if cond == nil {
-					continue
-				}
-				ast.Inspect(cond, func(n ast.Node) bool {
-					be, isB := n.(*ast.BinaryExpr)
-					if !isB {
+				// conditions of the loop body that decide whether the recording is reached
+				nonNeg, smaller, wrong := false, false, false
+				ast.Inspect(lp.Body, func(n ast.Node) bool {
+					ifs, isIf := n.(*ast.IfStmt)
+					if !isIf {
 						return true
 					}
-					if x, y, op, okO := core.Orient(be, func(e ast.Expr) bool { return isIdentOf(info, e, iv) }); okO {
-						_ = x
-						if cv, isC := core.ConstInt(info, y); isC && ((op == token.GEQ && cv == 0) || (op == token.GTR && cv == -1) || (op == token.NEQ && cv == -1)) {
-							nonNeg = true
-						}
-						if isIdentOf(info, y, best) && (op == token.LSS || op == token.LEQ) {
-							smaller = true
+					around := within(ifs.Body, a)
+					skips := false
+					if !around && ifs.End() <= a.Pos() && len(ifs.Body.List) > 0 {
+						if br, isBr := ifs.Body.List[len(ifs.Body.List)-1].(*ast.BranchStmt); isBr && br.Tok == token.CONTINUE {
+							skips = true
 						}
 					}
+					if !around && !skips {
+						return true
+					}
+					ast.Inspect(ifs.Cond, func(m ast.Node) bool {
+						be, isB := m.(*ast.BinaryExpr)
+						if !isB {
+							return true
+						}
+						_, y, op, okO := core.Orient(be, func(e ast.Expr) bool { return isIdentOf(info, e, iv) })
+						if !okO {
+							return true
+						}
+						if cv, isC := core.ConstInt(info, y); isC {
+							pos := (op == token.GEQ && cv == 0) || (op == token.GTR && cv == -1) || (op == token.NEQ && cv == -1)
+							neg := (op == token.LSS && cv == 0) || (op == token.LEQ && cv == -1) || (op == token.EQL && cv == -1)
+							if (around && pos) || (skips && neg) {
+								nonNeg = true
+							}
+						}
+						if isIdentOf(info, y, best) {
+							less := op == token.LSS || op == token.LEQ
+							more := op == token.GTR || op == token.GEQ
+							switch {
+							case (around && less) || (skips && more):
+								smaller = true
+							case (around && more) || (skips && less):
+								wrong = true
+							}
+						}
+						return true
+					})
 					return true
 				})
-				if !nonNeg || !smaller {
+				if !nonNeg || !smaller || wrong {
 					continue
 				}
-				// the recorded stop is what every return hands back
 				okRet := true
 				for _, ex := range g.Returns() {
 					if ex.Return == nil || len(ex.Return.Results) != 2 || !isIdentOf(info, ex.Return.Results[1], chosen) {
@@ -768,5 +787,78 @@ func findStopEarliest(c *Ctx, f *core.Func) (bool, string) {
 			}
 		}
 	}
-	return false, "FindStop must range over all stops, locate each with strings.Index(sequence, stop) and return the one with the smallest index (recorded under `i >= 0 && (… || i < best)`)"
+	return false, "FindStop must loop over all stops, locate each with strings.Index(sequence, stop) and return the one with the smallest index (recorded only with i >= 0 and, once something is recorded, only for a smaller index)"
+}
+
+// stopSuffixZeroBased accepts the zero-based spelling of the prefix loop of ContainsStopSuffix:
+// `for n := range len(stop)` (or n := 0; n < len(stop); n++) testing strings.HasSuffix(sequence, stop[:n+1]),
+// the slice possibly held in a local.
+func stopSuffixZeroBased(c *Ctx, f *core.Func) bool {
+	info := f.Info()
+	g := c.G(f)
+	seq, stops := paramAt(f, 0), paramAt(f, 1)
+	for _, lp := range listLoops(info, f.Body) {
+		if lp.List != stops {
+			continue
+		}
+		okLoop := false
+		ast.Inspect(lp.Body, func(n ast.Node) bool {
+			var iv types.Object
+			var body *ast.BlockStmt
+			isStopLen := func(e ast.Expr) bool {
+				call, isC := ast.Unparen(e).(*ast.CallExpr)
+				return isC && core.CalleeName(info, call) == "builtin.len" && len(call.Args) == 1 && lp.IsElem(call.Args[0])
+			}
+			switch x := n.(type) {
+			case *ast.RangeStmt: // for n := range len(stop)
+				if id, ok := x.Key.(*ast.Ident); ok && x.Value == nil && isStopLen(x.X) {
+					iv, body = info.Defs[id], x.Body
+				}
+			case *ast.ForStmt:
+				init, ok1 := x.Init.(*ast.AssignStmt)
+				cond, ok2 := x.Cond.(*ast.BinaryExpr)
+				post, ok3 := x.Post.(*ast.IncDecStmt)
+				if ok1 && ok2 && ok3 && len(init.Lhs) == 1 && post.Tok == token.INC {
+					o := info.ObjectOf(init.Lhs[0].(*ast.Ident))
+					if v, isC := core.ConstInt(info, init.Rhs[0]); isC && v == 0 && isIdentOf(info, post.X, o) {
+						if _, y, op, okO := core.Orient(cond, func(e ast.Expr) bool { return isIdentOf(info, e, o) }); okO && op == token.LSS && isStopLen(y) {
+							iv, body = o, x.Body
+						}
+					}
+				}
+			}
+			if iv == nil {
+				return true
+			}
+			for _, call := range core.CallsTo(info, body, false, "strings.HasSuffix") {
+				if !isIdentOf(info, call.Args[0], seq) {
+					continue
+				}
+				for _, x := range expand(g, call.Args[1], 2) {
+					se, isS := x.(*ast.SliceExpr)
+					if !isS {
+						if e, isE := x.(ast.Expr); isE {
+							se, isS = ast.Unparen(e).(*ast.SliceExpr)
+						}
+					}
+					if !isS || se.Low != nil || se.High == nil || !lp.IsElem(se.X) {
+						continue
+					}
+					if be, isB := ast.Unparen(se.High).(*ast.BinaryExpr); isB && be.Op == token.ADD {
+						if v, isC := core.ConstInt(info, be.Y); isC && v == 1 && isIdentOf(info, be.X, iv) {
+							okLoop = true
+						}
+						if v, isC := core.ConstInt(info, be.X); isC && v == 1 && isIdentOf(info, be.Y, iv) {
+							okLoop = true
+						}
+					}
+				}
+			}
+			return true
+		})
+		if okLoop {
+			return true
+		}
+	}
+	return false
 }
